@@ -121,4 +121,32 @@ PROPS = {
         "DESIGN.md section 4 C09", level="fault_enumeration",
         level_note="Trusted: the catalogue is the input space (it is large but not all inputs); simnet instead of net/http server, so connection-level behaviour is out of scope."),
         ),
+    "C16": flow(
+        "W-flows",
+        "deterministic simulation: seeded histories of device authorization, approval, denial, expiry (clock jumps) and polling by initiating and foreign clients, including the real rp.DeviceAccessToken polling loop on the simulated clock and storage time-outs",
+        "one evaluation = one seeded world (router, user-code alphabet/length/dash interval, lifetime, poll interval) running 30-70 actor steps: start (any client, any credential presentation), approve/deny, poll (right/foreign client, unknown code, "
+        "injected storage timeout), clock advance, and a complete client polling loop with approval/denial/expiry after 0-3 polls. non-trivial = tokens were issued at least once; distinct = distinct step history",
+        {"runs": 40, "wall": 90}, {"runs": 8000, "wall": 1200},
+        {"quick": {"_runs": 400, "device-started": 1500, "device-tokens": 500, "poll-loop-approve": 500, "poll-answer-slow_down": 100, "poll-answer-expired_token": 100, "poll-answer-access_denied": 100, "storage-timeout": 100},
+         "thorough": {"_runs": 20000}},
+        "Seeded exploration; tokens imply approval of that code by the ledger user and the initiating, authenticated client; refusals follow the reference state machine (pending/denied/expired/slow_down); response fields follow the configuration; bounded progress of the real polling loop after approval.",
+        "DESIGN.md section 4 C16 and Appendix C"),
+    "C03": flow(
+        "W-flows",
+        "deterministic simulation: seeded hostile authorization and callback requests against randomly registered clients, with storage faults at every call; every response's Location / form action is checked against a reference redirect-URI matcher",
+        "one evaluation = one seeded world (router, 4 random client registrations: application type x dev mode x auth method x response types x 1-4 registered URIs x opted-in or ignored globs) running 40-80 steps: authorize with a redirect_uri "
+        "drawn from 26 mutation kinds of a registered URI, crossed with response type/mode, other broken parameters and storage faults; callbacks for done/not-done/unknown requests. non-trivial = a redirect to a client and an error page both occurred",
+        {"runs": 400, "wall": 60}, {"runs": 150000, "wall": 1200},
+        {"quick": {"_runs": 5000, "redirect-to-client": 20000, "to-login": 5000, "error-page": 100000, "error": 4000}, "thorough": {"_runs": 500000}},
+        "Seeded exploration; whenever the user agent is sent anywhere but the login page (302 or form_post) the target must be the requested URI and that URI must be allowed for the client by the reference matcher; missing/unknown-client requests get an error page.",
+        "DESIGN.md section 4 C03 and Appendix C"),
+    "C18": flow(
+        "W-flows",
+        "deterministic simulation: seeded end_session requests with genuine, expired (clock jumps), re-signed, foreign-issuer, azp-less, tampered and garbage hints crossed with client_id, post-logout URIs, globs and states on both routers",
+        "one evaluation = one seeded world (router, algorithm, per-client post-logout registrations and globs, id-token lifetimes) running 40-80 steps: obtain id tokens, advance the clock, logout with hint kind x client_id x post_logout_redirect_uri kind x state x GET/POST. "
+        "non-trivial = at least one logout redirected and one was rejected",
+        {"runs": 40, "wall": 90}, {"runs": 8000, "wall": 1200},
+        {"quick": {"_runs": 400, "logout-redirect": 2000, "logout-rejected": 4000, "redirect-to-registered": 800, "expired-hint-accepted": 300}, "thorough": {"_runs": 20000}},
+        "Seeded exploration; a redirect goes to the default URI or to a URI registered for the client proven by a validly signed hint (or client_id); invalid hints and contradictions are rejected; expired valid hints are accepted; the journal shows the hint's subject and client being terminated; state arrives unchanged.",
+        "DESIGN.md section 4 C18"),
 }
